@@ -288,6 +288,15 @@ def Op.srcKey : Op → Option Key
   | .tins m _ | .trem m _ => some (.ctr m)
   | _ => none
 
+/-- `op` is a source operation on a key the recorded closure of `n` does not mention -/
+def OpAvoids (dv : List (NodeId × Rev)) (g : Nat) (n : NodeId) (op : Op) : Prop :=
+  match op.srcKey with
+  | some k => Avoids dv k g n
+  | none => False
+
+instance (dv : List (NodeId × Rev)) (g : Nat) (n : NodeId) (op : Op) : Decidable (OpAvoids dv g n op) := by
+  unfold OpAvoids; split <;> infer_instance
+
 theorem touchCounter_other (s : Storage) (m : Nat) :
     (touchCounter s m).derived = s.derived ∧
       ∀ k, k ≠ .ctr m → alookup (touchCounter s m).srcs k = alookup s.srcs k := by
